@@ -41,6 +41,11 @@ type Solver struct {
 	oneshot  bool
 	TimeoutS int
 	Errors   []string
+	// hybrid mode: quickMs > 0 gives the primary (incremental z3) only that long per query; what it
+	// cannot decide in that time goes to the fallback (one-shot cvc5 int-blasting)
+	quickMs  int
+	fallback *Solver
+	Fallbacks int
 }
 
 // Solver command lines. cvc5int is the int-blasting route for division-heavy queries.
@@ -52,6 +57,17 @@ var SolverArgv = map[string][]string{
 }
 
 func NewSolver(name string, timeoutS int) (*Solver, error) {
+	if name == "hybrid" {
+		p, err := NewSolver("z3", timeoutS)
+		if err != nil {
+			return nil, err
+		}
+		p.Name = "hybrid"
+		p.quickMs = 400
+		p.send(fmt.Sprintf("(set-option :timeout %d)", p.quickMs))
+		p.fallback, _ = NewSolver("cvc5int", timeoutS)
+		return p, nil
+	}
 	argv, ok := SolverArgv[name]
 	if !ok {
 		return nil, fmt.Errorf("unknown solver %q", name)
@@ -95,7 +111,9 @@ func (s *Solver) start() error {
 	s.declared = map[string]bool{}
 	s.ndefs = 0
 	s.send("(set-option :print-success false)")
-	if strings.HasPrefix(s.Name, "z3") {
+	if s.quickMs > 0 {
+		s.send(fmt.Sprintf("(set-option :timeout %d)", s.quickMs))
+	} else if strings.HasPrefix(s.Name, "z3") {
 		s.send(fmt.Sprintf("(set-option :timeout %d)", s.TimeoutS*1000))
 	} else {
 		s.send(fmt.Sprintf("(set-option :tlimit-per %d)", s.TimeoutS*1000))
@@ -173,6 +191,38 @@ func (s *Solver) readSexp() (string, error) {
 // Check asks whether the conjunction of conj is satisfiable. If wantModel and sat,
 // values for the symbols (and Select applications) under conj are returned.
 func (s *Solver) Check(conj []*Term, wantModel bool) (Result, *Model, error) {
+	if s.fallback != nil {
+		res, m, err := s.check1(conj, wantModel)
+		if res != Unknown {
+			return res, m, err
+		}
+		// undecided within the quick budget (or an error): ask the int-blasting back end
+		s.NUnknown--
+		s.Queries--
+		s.Fallbacks++
+		if err != nil && len(s.Errors) > 0 {
+			s.Errors = s.Errors[:len(s.Errors)-1]
+		}
+		t0 := time.Now()
+		res, m, err = s.fallback.Check(conj, wantModel)
+		s.Seconds += time.Since(t0).Seconds()
+		s.Queries++
+		switch res {
+		case Sat:
+			s.NSat++
+		case Unsat:
+			s.NUnsat++
+		default:
+			s.NUnknown++
+			s.Errors = append(s.Errors, s.fallback.Errors...)
+			s.fallback.Errors = nil
+		}
+		return res, m, err
+	}
+	return s.check1(conj, wantModel)
+}
+
+func (s *Solver) check1(conj []*Term, wantModel bool) (Result, *Model, error) {
 	t0 := time.Now()
 	defer func() { s.Seconds += time.Since(t0).Seconds() }()
 	if s.oneshot {
